@@ -10,6 +10,4 @@ open Emboss.Constraints
 #print axioms C14_lookup_unqualified
 #print axioms C14_attr_errors_located
 #print axioms C14_field_errors_located
-#print axioms C14_qualified_attribute_counterexample
-#print axioms C14_signed_nonliteral_crash_counterexample
-#print axioms C14_unbounded_size_crash_counterexample
+#print axioms C14_lookup_documented
